@@ -531,8 +531,9 @@ def plan(prop, tier, seed, budget):
     elif prop == 'C20':
         P = dict(
             level='exploration',
-            builds=[('stray', 'asan')] + ([] if q else [('stray', 'rel')]),
-            jobs=[g1_jobs('stray', ['table'], 100000), g2_jobs('stray', 1500000 if q else 10000000)] +
+            builds=[('stray', 'asan'), ('mem', 'asan'), ('array', 'asan')] + ([] if q else [('stray', 'rel')]),
+            jobs=[g1_jobs('stray', ['table'], 100000), g2_jobs('stray', 1500000 if q else 10000000, workers=12),
+                  g2_jobs('mem', 150000 if q else 1500000, workers=2), g2_jobs('array', 100000 if q else 1000000, workers=2)] +
                  ([] if q else [g1_jobs('stray', ['table'], 100000, variant='rel')]),
             rule='case = (object kind in {guarded, unique, shared, weak, array}, state in {empty, owning, co-owned, with weak reference, expired, '
                  'slice, external buffer}, entry point (every public function that reads, transfers or releases the pointer, header-inline ones '
@@ -540,7 +541,11 @@ def plan(prop, tier, seed, budget):
                  'state of the other argument) preceded by a short well-formed prefix; oracle = the call on the stray copy ends in SIGABRT; '
                  'afterwards the ORIGINAL answers get/unique/data/size/at exactly as before, its memory was neither cleared nor freed, and '
                  'resetting the originals leaves nothing live beyond what the abandoned other argument may hold; the prefix (proper use of '
-                 'copy/share/swap) never aborts. G1 = the whole table (810 entries), exhaustive. Non-trivial: stray copy of a non-empty object '
+                 'copy/share/swap, with the object USED while it sits where the provided function moved it) never aborts. The converse half '
+                 '("objects moved only with the provided functions never abort, throughout the histories of C05 and C14") is additionally run '
+                 'on the C05 and C14 history generators (harnesses mem, array) with --prop C20: there only an abort in a well-formed history '
+                 '(clause abort.unexpected) or an ASan report is a failure, model clauses of C05/C14 are left to their own checks. '
+                 'G1 = the whole table (810 entries), exhaustive. Non-trivial: stray copy of a non-empty object '
                  '(for two-object entry points: in the second argument position). Distinct = distinct case bytes.',
             assumptions=COMMON_ASSUME + ['functions that only (re)initialise (*_init, guarded_ptr_set, the dst of guarded_ptr_copy) and cstl_array_size are outside the statement'],
         )
